@@ -45,9 +45,9 @@ def relation_cases(tier, seed):
             if tier == "quick":
                 if atom == "binary":
                     full = rnd.sample(full, len(full) // 6)
-                    part = rnd.sample(part, len(part) // 25)
+                    part = rnd.sample(part, len(part) // 40)
                 else:
-                    part = rnd.sample(part, len(part) // 4)
+                    part = rnd.sample(part, len(part) // 7)
             cases += full + part
     for i, c in enumerate(cases):
         c["id"] = i + 1
